@@ -112,10 +112,11 @@ VENDOR = {"ntag": NtagCase, "lite": LiteCase}
 def ops_for(typ, case):
     if typ == "ntag":
         return ["ndef_read", "ndef_write", "is_present", "dump", "activate", "read", "write", "authenticate",
-                "authenticate_wrong", "protect_pw", "signature", "format"]
+                "authenticate_wrong", "protect_pw", "signature", "format", "auth_ndef_read", "auth_ndef_write"]
     if typ == "lite":
         return ["ndef_read", "ndef_write", "is_present", "dump", "activate", "authenticate", "authenticate_wrong",
-                "protect_pw", "read_with_mac", "read_without_mac", "format"] + (["write_with_mac"] if case.lite_s else [])
+                "protect_pw", "read_with_mac", "read_without_mac", "format", "auth_ndef_read", "auth_ndef_write",
+                "auth_dump"] + (["write_with_mac"] if case.lite_s else [])
     common = ["ndef_read", "ndef_write", "is_present", "format", "format_wipe", "dump", "protect", "activate"]
     if typ == "t1":
         extra = ["read_id", "read_all", "read_byte", "write_byte"] + (["read_block", "write_block", "read_segment"]
@@ -170,6 +171,19 @@ def do_op(nfc, w, tag, op, case, arg):
             return "auth-failed"
         r = tag.read_with_mac(1, 2)
         return None if r is None else bytes(r)
+    if op in ("auth_ndef_read", "auth_ndef_write", "auth_dump"):
+        # the NDEF and dump paths of an authenticated tag object (vendor classes read with MAC / other pages then)
+        if tag.authenticate(case.key) is not True:
+            return "auth-failed"
+        if op == "auth_dump":
+            return tuple(tag.dump())
+        n = tag.ndef
+        if op == "auth_ndef_read":
+            return None if n is None else (bytes(n.octets), n.capacity, n.is_readable, n.is_writeable)
+        if n is None:
+            return "no-ndef"
+        n.octets = arg["data"][:n.capacity]
+        return "written"
     if op == "read_without_mac":
         return bytes(tag.read_without_mac(1, 2, 3))
     if op == "write_with_mac":
@@ -220,8 +234,9 @@ IDEMPOTENT_OPS = {"ndef_read", "is_present", "dump", "read_id", "read_all", "rea
                   "read_segment", "read", "polling", "read_blocks", "select_read", "activate",
                   "write_byte", "write_block", "write", "write_blocks", "ndef_write", "format", "format_wipe"}
 # the tag changes state when it executes these (write counter, session): a lost *response* may legitimately fail
-NON_IDEMPOTENT = {"write_with_mac", "authenticate", "protect_pw", "read_with_mac", "authenticate_wrong"}
-ERROR_AS_SIGNAL = {"dump", "format", "format_wipe", "format_default", "format_wipe_wide", "activate", "is_present", "ndef_read", "protect", "ndef_write"}
+NON_IDEMPOTENT = {"write_with_mac", "authenticate", "protect_pw", "read_with_mac", "authenticate_wrong",
+                  "auth_ndef_read", "auth_ndef_write", "auth_dump"}
+ERROR_AS_SIGNAL = {"auth_ndef_read", "auth_ndef_write", "auth_dump", "dump", "format", "format_wipe", "format_default", "format_wipe_wide", "activate", "is_present", "ndef_read", "protect", "ndef_write"}
 PRIMITIVES = {"read_id", "read_all", "read_byte", "write_byte", "read_block", "write_block", "read_segment",
               "read", "write", "polling", "read_blocks", "write_blocks", "send_apdu", "select_read"}
 
